@@ -108,6 +108,19 @@ Delivered == c # 0 => \A r \in Rds : \A t \in Live(r) :
    /\ ((Mode(Tab(r)[t].agg, Tab(r)[t].kind) = "psum" /\ Temp(r) = "delta") => phist[r][t] = Part(r, t, pmark[r], mark[r]))
 (* operational cells = declarative cells, for every history *)
 DeclEq == c # 0 => \A r \in Rds : \A t \in Live(r) : ss[r][t].cells = Decl(L, Tab(r)[t], hist[r][t])
+(* typed values: measurements whose FILTERED sets print alike but differ in the  *)
+(* type of a value are different streams - without a limit each is reported     *)
+(* under its own set with its own count; measurements whose filtered sets are   *)
+(* equal (the filter removed the key that differed) are added together          *)
+TypedApart == c # 0 => \A r \in Rds : \A t \in Live(r) :
+   LET st == Tab(r)[t]
+       h == hist[r][t]
+       F(j) == Filtered(st.filt, h[j].attrs)
+   IN L <= 0 => \A j \in 1..Len(h) :
+        \E x \in ss[r][t].cells :
+           /\ ~x.ovf /\ x.attrs = F(j)
+           /\ (Mode(st.agg, st.kind) = "hist" => x.n = Cardinality({y \in 1..Len(h) : F(y) = F(j)}))
+           /\ \A y \in 1..Len(h) : TextTwins(F(y), F(j)) => \E z \in ss[r][t].cells : z # x /\ ~z.ovf /\ z.attrs = F(y)
 (* nothing lost, nothing duplicated: counts and sums of all delivered measurements *)
 Conserved == c # 0 => \A r \in Rds : \A t \in Live(r) :
    LET m == Mode(Tab(r)[t].agg, Tab(r)[t].kind)
@@ -144,5 +157,5 @@ ReportedTotal == c # 0 => \A r \in Rds : \A mm \in Rep(r) :
                MapThenSumSet(LAMBDA p : p.s, mm.pts) = MapThenSumSet(LAMBDA j : h[j].v, 1..Len(h)))
 (* every reported metric belongs to exactly one stream of that reader *)
 ReportOwned == c # 0 => \A r \in Rds : \A mm \in Rep(r) : Cardinality({t \in Live(r) : RKey(Tab(r)[t]) = MKey(mm)}) = 1
-HInv == Inv /\ Delivered /\ DeclEq /\ ReportOwned /\ Conserved /\ ReportDecl /\ ReportedTotal
+HInv == Inv /\ Delivered /\ DeclEq /\ ReportOwned /\ Conserved /\ ReportDecl /\ ReportedTotal /\ TypedApart
 =============================================================================
